@@ -103,11 +103,13 @@ class Run:
         n_known = 0
         n_viol = 0
         seen_keys = set()
+        all_findings = []
         for f in self.findings:
             if f.keystr in seen_keys:
                 continue
             seen_keys.add(f.keystr)
             k = known.get((f.rule, f.symbol, f.construct))
+            all_findings.append(dict(key=f.key, what=f.what, loc=f.loc, status="known" if k is not None else "new"))
             if k is not None:
                 n_known += 1
                 lines.append(f"KNOWN-FINDING: property={self.prop} {f.rule} {f.symbol}: {f.what} [{f.loc}]")
@@ -154,6 +156,7 @@ class Run:
                 new_violations=n_viol,
                 rules={rid: dict(text=r["text"], decides=r["decides"], instances=r["n"], ok=r["ok"], findings=r["findings"], undecided=r["undecided"], floor=r["floor"]) for rid, r in self.rules.items()},
                 samples=samples[:120],
+                findings=all_findings,
                 exhaustive=True,
                 trusted_base=self.trusted or ["python ast", "mypy type export (call resolution)", "frozen idiom tables in tlsa/props"],
                 analysed_root=self.root,
